@@ -446,7 +446,7 @@ func runC13(c *Ctx, r *Rec) {
 	for _, w := range c.fieldWrites()[storage.Origin()] {
 		r.fail("D4-single-gate", c.fdName(w.In)+"/storage-write", c.pos(w.Pos), "the storage field is "+w.How+" outside the constructor")
 	}
-	r.floor("D4-single-gate", 3)
+	r.floor("D4-single-gate", 1)
 }
 
 // initOf returns the initialiser expression of the local variable id refers to
